@@ -1634,6 +1634,7 @@ fn generate(tier: &str, seed: u64) -> (Vec<String>, BTreeMap<String, u64>) {
             ("sigma3_replaced_by_sigma1", "0.1.rp:1:0:0"),
             ("sigma1_replaced_by_old_sigma1", "0.0.rp:0:0:0"),
             ("sigma2_replaced_by_status_success", "1.0.rp:0:1:1"),
+            ("final_status_replaced_by_sigma2", "1.1.rp:1:1:0"),
             ("sigma3_extra_field", "0.1.add:9"),
             ("sigma3_dup_field", "0.1.dupf:1"),
             ("sigma1_eph_key_from_old_run", "0.0.sb:4:0:0:0:4"),
